@@ -190,6 +190,10 @@ Definition add_ugame (ug : list ugrow) (tid : N) (outs : list rel_out) : list ug
                            | None => acc
                            end) outs ug.
 
+(* a tx record exists for the hash (GetByPrefix on the tx-records bucket) *)
+Definition tx_recorded (s : pstate) (tid : N) : bool :=
+  existsb (fun r => existsb (fun t => (t_id t =? tid)%N) (br_txs r)) (ps_blocks s).
+
 (* filterTx(tx, nil) up to and including onRelevantTx (one database transaction):
    POk None = not relevant, POk (Some s') = stored *)
 Definition receive_store (p : params) (own : owner_fn) (n : node) (s : pstate) (t : tx) : pres (option pstate) :=
@@ -202,7 +206,11 @@ Definition receive_store (p : params) (own : owner_fn) (n : node) (s : pstate) (
       | _, _ =>
           if t_cb t then PErr ECoinbaseUnmined
           else
-            (* insertMemPoolTx *)
+            (* insertMemPoolTx: a transaction that is already recorded as mined is not stored (repair
+               0bc4560): AddRelevantTx returns at once, filterTx still reports it relevant *)
+            if (match um_get (ps_unmined s) (t_id t) with Some _ => false | None => tx_recorded s (t_id t) end)
+            then POk (Some s)
+            else
             let s1 := match um_get (ps_unmined s) (t_id t) with
                       | Some _ => s
                       | None =>
@@ -243,8 +251,25 @@ Definition rm_ugame_rows (own : owner_fn) (ug : list ugrow) (h : N) (t : tx) : l
                           | _, _ => acc
                           end) (t_outs t) ug.
 
-(* deleteUnminedInputs: every input of the transaction, whole key *)
-Definition del_inputs_of (ui : list (outp * list N)) (t : tx) : list (outp * list N) :=
+(* deleteUnminedInputs (after the repair 626fe73): for every input of the transaction, its own hash is
+   taken out of the list of spenders; the key is deleted when the list becomes empty, rewritten when it
+   became shorter, left alone otherwise *)
+Definition ui_remove (l : list (outp * list N)) (o : outp) (h : N) : list (outp * list N) :=
+  match ui_get l o with
+  | [] => l
+  | sps =>
+      let rest := filter (fun x => negb (x =? h)%N) sps in
+      match rest with
+      | [] => ui_del l o
+      | _ => if (length rest =? length sps)%nat then l else (o, rest) :: ui_del l o
+      end
+  end.
+
+Definition del_inputs_of (ui : list (outp * list N)) (t : tx) (h : N) : list (outp * list N) :=
+  fold_left (fun acc o => ui_remove acc o h) (t_ins t) ui.
+
+(* the code as first found deleted the whole key of every input (finding flag-lost:shared-input-key) *)
+Definition del_inputs_of_found (ui : list (outp * list N)) (t : tx) : list (outp * list N) :=
   fold_left (fun acc o => ui_del acc o) (t_ins t) ui.
 
 (* removeConflict (recursive in the code; fuel bounds the depth, see PendingProofs.remove_conflict_fuel) *)
@@ -275,7 +300,7 @@ Fixpoint remove_conflict (fuel : nat) (own : owner_fn) (s : pstate) (h : N) (t :
       match fold_left per_out (out_indexes t) (POk s) with
       | PErr e => PErr e
       | POk s4 =>
-          let s5 := set_uinputs s4 (del_inputs_of (ps_uinputs s4) t) in
+          let s5 := set_uinputs s4 (del_inputs_of (ps_uinputs s4) t h) in
           let s6 := set_ugame s5 (rm_ugame_rows own (ps_ugame s5) h t) in
           POk (set_unmined s6 (um_del (ps_unmined s6) h))
       end
@@ -303,7 +328,7 @@ Definition remove_double_spends (own : owner_fn) (s : pstate) (r : relrec) : pre
                      match acc with PErr e => PErr e | POk s1 => remove_spenders own s1 (ri_prev ri) end)
                   (rr_ins r) (POk s) with
   | PErr e => PErr e
-  | POk s2 => POk (set_uinputs s2 (del_inputs_of (ps_uinputs s2) (rr_tx r)))
+  | POk s2 => POk (set_uinputs s2 (del_inputs_of (ps_uinputs s2) (rr_tx r) (t_id (rr_tx r))))
   end.
 
 (* ---------------------------------------------------------------- connecting a block *)
